@@ -20,7 +20,7 @@ RULE = ("Hypothesis RuleBasedStateMachine over one temporary results file: rule 
         "tuple/nested dict/arbitrary objects. Model = dict name -> JSON image of the FIRST output saved under that name. After "
         "every save: get_outputs_from_file has exactly the model's names; data and actions equal the saved arrays (shape, values, NaN "
         "positions; compared as float64); metadata equals json.loads(json.dumps(original metadata, default=json_serializer)); "
-        "Output.from_file agrees; entries saved earlier are the same JSON objects as before; a repeated name changes nothing. "
+        "Output.from_file agrees; entries saved earlier are the same JSON objects as before; a repeated name changes nothing; a save whose metadata cannot be serialised (tuple-keyed dict, object whose repr raises) fails without touching the file. "
         "Full save() pipeline (plots + JSON + coalition charts) on NaN-padded matrices: read-back equals what was handed in and the caller's arrays are unaltered. Command level: solve / greedy / ugreedy / best_states run through the real CLI parser on small configurations with the evaluation / "
         "search function wrapped by a recording spy: what is read back equals what the spy saw returned. Non-trivial: >= 3 saves with "
         "a repeated name and a matrix containing NaN; distinct = hash of the save history.")
@@ -41,6 +41,13 @@ class Opaque:
         return f"Opaque({self.tag!r})"
 
 
+class BadRepr:
+    """An object whose repr raises: the fallback serializer fails in the middle of the dump."""
+
+    def __repr__(self):
+        raise RuntimeError("repr of a metadata value failed")
+
+
 def build_meta(spec):
     """Turn the JSON description of metadata (which may name non-JSON types) into the real Python values."""
     if isinstance(spec, dict) and "__t" in spec:
@@ -55,6 +62,10 @@ def build_meta(spec):
             return {k: build_meta(x) for k, x in spec["v"].items()}
         if t == "float":
             return float(spec["v"])
+        if t == "tuplekeys":
+            return {(1, 2): spec["v"]}          # json cannot serialise this dict: the save must fail cleanly
+        if t == "badrepr":
+            return BadRepr()
     if isinstance(spec, list):
         return [build_meta(x) for x in spec]
     return spec
@@ -107,6 +118,22 @@ class Sim:
         out = make_output(out_spec)
         before_text = self.path.read_text() if self.path.exists() else None
         before = json.loads(before_text) if before_text is not None else {}
+        if out_spec.get("unserialisable"):
+            # a save that cannot be serialised must fail without touching what is already in the file
+            try:
+                save_json(self.path, name, out)
+                failed = False
+            except (TypeError, ValueError, RuntimeError):
+                failed = True
+            after_text = self.path.read_text() if self.path.exists() else None
+            if name in self.model or failed:
+                if after_text != before_text:
+                    res.fail(f"failed-save-damaged-file :: a save under {name!r} that could not be serialised changed the results file "
+                             f"({len(before_text or '')} -> {len(after_text or '')} bytes); earlier entries {sorted(self.model)}")
+                self.failed_saves = getattr(self, "failed_saves", 0) + 1
+                return
+            res.fail(f"harness :: unserialisable metadata was saved without error under {name!r}")
+            return
         save_json(self.path, name, out)
         self.saves += 1
         if np.isnan(out.data).any():
@@ -293,6 +320,15 @@ def make_machine():
 
         @rule(name=NAMES, out=out_specs())
         def save(self, name, out):
+            self.case["saves"].append([name, out])
+            self.ctx.current_case = self.case
+            self.sim.save(name, out, self.res)
+
+        @rule(name=NAMES, out=out_specs(), kind=st.sampled_from(["tuplekeys", "badrepr"]))
+        def save_unserialisable(self, name, out, kind):
+            out = dict(out)
+            out["meta"] = {**out["meta"], "k": {"__t": kind, "v": 1}}
+            out["unserialisable"] = True
             self.case["saves"].append([name, out])
             self.ctx.current_case = self.case
             self.sim.save(name, out, self.res)
